@@ -1,5 +1,5 @@
 //! C07 (self-delimiting), C08 (truncation), C12 (container / size-form independence) over the built-in vocabulary.
-use crate::props::builtin::{tv_strategy, TV};
+use crate::props::builtin::{tv_strategy, tv_strategy_ext, TV};
 use crate::run::{drive, parallel, to_json, Cx, Verdict};
 use crate::PropResult;
 use proptest::prelude::*;
@@ -32,7 +32,7 @@ fn suffix_strategy() -> BoxedStrategy<Vec<u8>> {
 
 pub fn suffix_case_strategy(depth: u32) -> BoxedStrategy<SuffixCase> {
     let cfg = ValCfg { max_len: 8, ..ValCfg::default() };
-    (prop_oneof![3 => proptest::collection::vec(tv_strategy(depth, cfg), 1..=1), 1 => proptest::collection::vec(tv_strategy(depth.min(2), cfg), 2..=5)], suffix_strategy())
+    (prop_oneof![3 => proptest::collection::vec(tv_strategy(depth, cfg), 1..=1), 2 => proptest::collection::vec(tv_strategy_ext(2, cfg, true), 1..=2), 1 => proptest::collection::vec(tv_strategy(depth.min(2), cfg), 2..=5)], suffix_strategy())
         .prop_map(|(items, suffix)| SuffixCase { items, suffix })
         .boxed()
 }
@@ -56,7 +56,7 @@ pub fn check_c07(c: &SuffixCase, acc: &mut Acc, record: bool) -> Verdict {
     let (results, rest) = vcat::decode_many(&tys, &bytes);
     for (i, r) in results.iter().enumerate() {
         match r {
-            Ok(v) if canon(&tys[i], v) == canon(&tys[i], &c.items[i].val) => {}
+            Ok(v) if canon(&tys[i], v) == canon(&tys[i], &vmodel::with_transient_defaults(&tys[i], &c.items[i].val)) => {}
             Ok(v) => return Verdict::Fail(format!("value {i} read back as {} instead of {} (stream {})", v.brief(), c.items[i].val.brief(), hex(&bytes))),
             Err(e) => return Verdict::Fail(format!("value {i} of {} failed to decode: {e:?} (stream {})", tys[i].render(), hex(&bytes))),
         }
@@ -173,7 +173,11 @@ pub fn run_c08(cx: &Cx) -> PropResult {
     let acc = parallel(cx, &|shard, acc| {
         let cfg = ValCfg { max_len: 6, long: shard % 4 == 0, ..ValCfg::default() };
         let strat = tv_strategy(3, cfg);
-        drive(crate::run::tag_seed(derive_seed(cx.seed, cx.prop, shard as u64, 0), 0), &strat, per_shard, acc, &|c: &TV| to_json(c), &mut |c, a, r| check_c08(c, a, r));
+        if drive(crate::run::tag_seed(derive_seed(cx.seed, cx.prop, shard as u64, 0), 0), &strat, per_shard, acc, &|c: &TV| to_json(c), &mut |c, a, r| check_c08(c, a, r)) {
+            return;
+        }
+        let strat = tv_strategy_ext(2, ValCfg { max_len: 4, long: false, ..ValCfg::default() }, true);
+        drive(crate::run::tag_seed(derive_seed(cx.seed, cx.prop, shard as u64, 1), 1), &strat, per_shard / 2, acc, &|c: &TV| to_json(c), &mut |c, a, r| check_c08(c, a, r));
     });
     let mut r = PropResult::new(
         acc,
